@@ -426,9 +426,9 @@ example : ∃ s, srun (SOP.init 12 4 3) [.create, .create, .destroy 32, .create]
 `pool_init` and `pool_engage` are separate calls: a pool may be given further
 zones at any point of its life (`static_object_pool::freelist()` exists for
 that).  A history is any list of `engage base size elemsz` / `alloc` / `free c`;
-it is rejected (`none`) only for `elemsz = 0`, `size % elemsz ≠ 0` (the
-`assert`), a zone overlapping an earlier one, or `free` of a cell that is not
-allocated.  Zones may have different sizes AND different element sizes.
+it is rejected (`none`) only when `pool_engage` refuses the zone (its asserts:
+`elemsz ≥ sizeof(struct slist_head) = 8`, `size % elemsz = 0`), for a zone overlapping
+an earlier one, or for `free` of a cell that is not allocated.  Zones may have different sizes AND different element sizes.
 `capacity zones` = the sum of `size / elemsz` over the zones engaged so far;
 `InZone z c` = `c = z.base + i * z.elemsz` for some `i < size / elemsz`. -/
 
@@ -516,7 +516,7 @@ theorem mpool_freed_cell_allocatable (s s1 : MState) (c : Nat) (r : Option Nat)
       split at he
       · simp only [Option.some.injEq, Prod.mk.injEq] at he
         obtain ⟨rfl, _⟩ := he
-        have hwz : (⟨b, sz, e⟩ : Zone).WF := by refine ⟨?_, ?_⟩ <;> simp only <;> omega
+        have hwz : (⟨b, sz, e⟩ : Zone).WF := not_refused_wf hc
         have := engageAt_eq (s.pool.release c).1 ⟨b, sz, e⟩ hwz
         simp only at this ⊢
         rw [this]; simp [Pool.release]
@@ -532,24 +532,23 @@ theorem mpool_engage_stores_inside_zone (b n e fuel : Nat) (he : 8 ≤ e) :
 
 /-- no store of a pool request (the links written by `pool_engage` into a new
 zone, the link written by `pool_free`) touches a cell that is handed out before
-and after the request (element sizes ≥ 8 = size of the link) … -/
+and after the request (element sizes ≥ 8 = size of the link: what `pool_engage` asserts) … -/
 theorem mpool_no_clobber (ops : List MOp) (s s' : MState) (op : MOp) (r : Option Nat)
-    (hr : mrun MState.init ops = some s) (hs : mstep s op = some (s', r))
-    (h8 : ∀ z ∈ s'.zones, 8 ≤ z.elemsz) :
+    (hr : mrun MState.init ops = some s) (hs : mstep s op = some (s', r)) :
     ∀ ev ∈ mstepEvs s op, ∀ c ∈ s.live, c ∈ s'.live → ∀ z ∈ s'.zones, InZone z c →
       ev.Avoids c (c + z.elemsz) :=
-  mstep_evs_avoid (mrun_inv MInv.init hr) hs h8
+  mstep_evs_avoid (mrun_inv MInv.init hr) hs
 
 /-- … so over a whole multi-zone history the contents of a handed-out cell stay
 untouched until it is freed: as long as no request frees it, it stays handed
 out and every byte keeps its value in every memory that can result -/
 theorem mpool_contents_untouched_until_freed (ops0 ops : List MOp) (s s' : MState) (evs : List Ev)
     (hr : mrun MState.init ops0 = some s) (hs : mrunE s ops = some (s', evs))
-    (h8 : ∀ z ∈ s'.zones, 8 ≤ z.elemsz) (c : Nat) (hc : c ∈ s.live)
+    (c : Nat) (hc : c ∈ s.live)
     (hne : ∀ op ∈ ops, op ≠ .free c) (z : Zone) (hz : z ∈ s.zones) (hzc : InZone z c)
     (m m' : Mem) (hx : Exec m evs m') :
     c ∈ s'.live ∧ ∀ x, c ≤ x → x < c + z.elemsz → m' x = m x :=
-  mrunE_frame (mrun_inv MInv.init hr) hs h8 hc hne hz hzc hx
+  mrunE_frame (mrun_inv MInv.init hr) hs hc hne hz hzc hx
 
 /-- the `next`-pointer routines implement every multi-zone history: the same
 pointers are returned and the links always represent the model's list (`head` =
@@ -566,6 +565,58 @@ theorem mpool_ptr_run_refines (ops : List MOp) (s : MState) (m : Links) (head : 
     (hh : ∀ z ∈ s.zones, head < z.base ∨ z.base + z.size ≤ head) :
     Rep (mrunP head (slistInit m head) ops) head s.pool.free :=
   mrunP_rep MInv.init (by simpa [MState.init, Pool.init] using rep_init m head) hs hh
+
+/-! ### what the pools need from the element size
+
+The list-level theorems above hold for the list model with any `elemsz > 0`.  The
+CODE keeps the list in the cells: `pool_engage` / `pool_free` store an 8-byte link
+at the start of every free cell.  That is sound exactly when a cell can hold the
+link; after `fix: pool_engage() asserts that a cell can hold the free-list link`
+the routine refuses smaller element sizes (`engageRefused`), and the multi-zone
+histories (`mstep`) reject them. -/
+
+/-- with `elemsz ≥ 8` every link store of `pool_engage` is the first 8 bytes of a
+cell of the zone and stays inside that cell: no two link fields overlap, none
+leaves the zone — the `next`-field memory `Links` (one slot per cell) is sound -/
+theorem pool_links_inside_cells (e b n fuel : Nat) (he : 8 ≤ e) :
+    ∀ ev ∈ engageEvs e (b + n * e) fuel b,
+      ∃ k, k < n ∧ ev = .w (b + k * e) 8 ∧ ev.Inside (b + k * e) (b + k * e + e) ∧ ev.Inside b (b + n * e) := by
+  intro ev hev
+  have h := engageEvs_cells e b n (by omega) fuel 0 (Nat.zero_le _)
+  simp only [Nat.zero_mul, Nat.add_zero] at h
+  obtain ⟨k, _, hk, rfl⟩ := h ev hev
+  have h1 : (k + 1) * e ≤ n * e := Nat.mul_le_mul_right e hk
+  rw [Nat.add_mul, Nat.one_mul] at h1
+  refine ⟨k, hk, rfl, ?_, ?_⟩ <;> simp only [Ev.Inside, Ev.lo, Ev.hi] <;> omega
+
+/-- FULL STATEMENT ("for all pool element sizes") is violated for element sizes
+below the size of the link.  Witness: `elemsz = 4`, a zone of 16 bytes — the link
+stores are 8 bytes at 0, 4, 8, 12: neighbouring links overlap and the last one
+leaves the zone (real code: ASan heap-buffer-overflow, `pool_avail` segfaults).
+The repaired `pool_engage` refuses the request (assert), the histories reject it. -/
+theorem pool_elemsz_below_link_witness :
+    engageEvs 4 16 17 0 = [.w 0 8, .w 4 8, .w 8 8, .w 12 8] ∧ ¬ (Ev.w 12 8).Inside 0 16 ∧
+    engageRefused 16 4 = true ∧ mstep MState.init (.engage 0 16 4) = none :=
+  ⟨by decide, by simp [Ev.Inside, Ev.lo, Ev.hi], by decide, by decide⟩
+
+/-- "aligned for its use": when the zone is 8-aligned and the element size a
+multiple of 8, every cell is 8-aligned (the link store and any `T` with
+`alignof(T) ≤ 8` are aligned) -/
+theorem pool_cells_pointer_aligned (z : Zone) (c : Nat) (hb : z.base % 8 = 0) (he : z.elemsz % 8 = 0)
+    (hc : InZone z c) : c % 8 = 0 := by
+  obtain ⟨i, _, rfl⟩ := hc
+  obtain ⟨q, hq⟩ := Nat.dvd_of_mod_eq_zero he
+  rw [hq, Nat.mul_left_comm]
+  generalize i * q = t
+  omega
+
+/-- FULL STATEMENT (aligned for EVERY element size) fails: `elemsz = 12` passes the
+asserts, cell 12 of an 8-aligned zone is not pointer-aligned (the link store is
+a misaligned access: tolerated on x86-64, a fault on Cortex-M0).  The
+correspondence stream exercises such sizes with UBSan's alignment check off. -/
+theorem pool_elemsz_unaligned_witness :
+    InZone ⟨0, 24, 12⟩ 12 ∧ 12 % 8 ≠ 0 ∧ engageRefused 24 12 = false :=
+  ⟨⟨1, by decide, by decide⟩, by decide, by decide⟩
 
 /-! ### static_object_pool: object lifetimes, with zones added through `freelist()` -/
 
@@ -660,6 +711,31 @@ theorem ipool_default_constructed (ops : List IOp) (s : IState)
 default-constructed pool it divides by `_elemsz = 0` (trap) -/
 theorem ipool_sizeOrig_default_witness :
     IPool.default.cellsOrig = none ∧ IPool.default.cells = 0 ∧ (IPool.init 48 16).cellsOrig = some 3 := by decide
+
+/-! ## "Inside the arena" is relative to the configured heap end
+
+FULL STATEMENT: every block lies inside the arena.  The allocator learns the end
+of its arena only through `__malloc_heap_end`, and the shipped default is 0 = "no
+limit" (`fix 0084f04` made the limit opt-in to keep the old behaviour).  So the
+clause holds as `_partial` (heap end configured) and fails as `_witness` (default). -/
+
+/-- with a heap end configured, every chunk (free or live, header included) of
+every history ends at or below it -/
+theorem heap_blocks_inside_arena_partial (cfg : Cfg) (ok : CfgOK cfg) (hl : cfg.lim ≠ 0) (ops : List Op) (h : Heap)
+    (hr : run cfg Heap.init ops = some h) : ∀ c ∈ h.flp ++ h.live, c.1 + 8 + c.2 ≤ cfg.lim := by
+  have hok := heap_inv cfg ok ops h hr
+  intro c hc
+  exact Nat.le_trans (hok.inside c hc) (hok.limit hl)
+
+/-- with the default `__malloc_heap_end = 0` there is no arena bound the allocator
+respects: for every bound `B` one request moves the break past it (malloc never fails) -/
+theorem heap_blocks_inside_arena_witness (W B : Nat) :
+    (malloc ⟨W, 0⟩ Heap.init B).ret = some 8 ∧ B < (malloc ⟨W, 0⟩ Heap.init B).h.brk := by
+  have := le_reqLen W B
+  simp only [malloc, Heap.init, scan, availOf]
+  refine ⟨by simp, ?_⟩
+  simp
+  omega
 
 /-! ## Requests close to `SIZE_MAX` (64-bit `size_t`)
 
